@@ -72,6 +72,8 @@ PAGES = {
     "inv_ok": "{{#invoke:h|ok|1}}",
     "inv_err": "{{#invoke:h|err}} {{#invoke:h|ok|2}}",
     "count": "{{#invoke:cnt|count}}",
+    # an invocation whose argument NAME is computed by another invocation of the same stateful module
+    "count_named": "{{#invoke:cnt|count|{{#invoke:cnt|count}}=v}}",
     "alias": "{{#myalias:1|y|n}} {{ovr|q}}",
     "reqglobal": "{{#invoke:h|reqglobal}} {{#invoke:h|reqglobal}}",
     "nw_in_template": "{{nw|p}} and <nowiki>''q''</nowiki>",
@@ -306,7 +308,7 @@ def work(payload, skip, report):
                         acc.violation("lua_invocations_isolated_within_page:" + last[1][5:], case, got["result"], expected_channel_output(last[1][5:]))
                     if last[1] == "reqglobal" and got["result"] != "1/1 1/1":
                         acc.violation("required_module_globals_reset", case, got["result"], "1/1 1/1")
-                    if last[1] == "count" and got["result"] != "1":
+                    if last[1] in ("count", "count_named") and got["result"] != "1":
                         acc.violation("module_level_state_reset", case, got["result"], "1")
                 acc.distinct("observations", got)
                 if i % 997 == 1:
